@@ -9,6 +9,7 @@ package c15
 // applies (which strings are accepted is C07's question).
 
 import (
+	"bytes"
 	"fmt"
 	"testing"
 
@@ -39,10 +40,16 @@ func TestUTF8Table(t *testing.T) {
 				payload := []byte(pre + string([]byte{byte(b)}) + suf)
 				var streams [][]byte
 				streams = append(streams, ref.Frame{H: ref.Header{Fin: true, Op: ref.OpText}, Payload: payload}.Encode())
+				empty := ref.Frame{H: ref.Header{Op: ref.OpCont}}.Encode()
+				emptyFin := ref.Frame{H: ref.Header{Fin: true, Op: ref.OpCont}}.Encode()
 				for cut := 0; cut <= len(payload); cut++ {
-					streams = append(streams, cat(
-						ref.Frame{H: ref.Header{Op: ref.OpText}, Payload: payload[:cut]}.Encode(),
-						ref.Frame{H: ref.Header{Fin: true, Op: ref.OpCont}, Payload: payload[cut:]}.Encode()))
+					head := ref.Frame{H: ref.Header{Op: ref.OpText}, Payload: payload[:cut]}.Encode()
+					streams = append(streams,
+						cat(head, ref.Frame{H: ref.Header{Fin: true, Op: ref.OpCont}, Payload: payload[cut:]}.Encode()),
+						// an empty fragment at the split, and the message ending with an empty final fragment right there
+						cat(head, empty, ref.Frame{H: ref.Header{Fin: true, Op: ref.OpCont}, Payload: payload[cut:]}.Encode()),
+						cat(head, emptyFin),
+						cat(head, empty, emptyFin))
 				}
 				for si, stream := range streams {
 					for ci, ctl := range ctls {
@@ -64,6 +71,57 @@ func TestUTF8Table(t *testing.T) {
 			}
 		}
 	}
+	n += utf8Edges(t)
+	if t.Failed() {
+		return
+	}
 	hx.EvalN(n)
 	hx.Part("text messages: DFA-state prefix x every next byte x suffix x fragment split x reader entry", int64(n), true)
+}
+
+// utf8Edges: a first fragment of a size around the buffer sizes of io.ReadAll
+// (512, then growth) that ends inside a multi-byte sequence, followed by empty
+// fragments, the last of which is final (or completes the sequence). The
+// reader's returned counts must stay within the caller's buffer whatever the
+// earlier reads were.
+func utf8Edges(t *testing.T) int {
+	sizes := []int{0, 1, 63, 64, 400, 450, 500, 509, 510, 511, 512, 513, 520, 900, 1000, 1020, 1023, 1024, 1025, 1030}
+	partials := []string{"", "\xc2", "\xe2", "\xe2\x82", "\xf0", "\xf0\x9f", "\xf0\x9f\x98", "\xe2\x82\xac"}
+	rests := map[string]string{"\xc2": "\x80", "\xe2": "\x82\xac", "\xe2\x82": "\xac", "\xf0": "\x9f\x98\x80", "\xf0\x9f": "\x98\x80", "\xf0\x9f\x98": "\x80"}
+	ctls := [][]byte{
+		{2, 0x01 | 4, 0x00, 0}, // Reader, 512-byte window
+		{2, 0x01 | 4, 0x30, 0}, // Reader, 64-byte window
+		{2, 0x01 | 4, 0x20, 5}, // Reader, 3-byte window, transport in 5-byte chunks
+		{3, 0x01, 0x00, 0},     // ReadMessage
+		{4, 0x01, 0x00, 0},     // ReadData
+	}
+	empty := ref.Frame{H: ref.Header{Op: ref.OpCont}}.Encode()
+	emptyFin := ref.Frame{H: ref.Header{Fin: true, Op: ref.OpCont}}.Encode()
+	ping := ref.Frame{H: ref.Header{Fin: true, Op: ref.OpPing}, Payload: []byte("p")}.Encode()
+	n := 0
+	for si, size := range sizes {
+		if !hx.Mine(si) {
+			continue
+		}
+		for _, part := range partials {
+			first := ref.Frame{H: ref.Header{Op: ref.OpText}, Payload: append(bytes.Repeat([]byte{'a'}, size), part...)}.Encode()
+			tails := [][]byte{emptyFin, cat(empty, emptyFin), cat(empty, ping, empty, emptyFin),
+				cat(empty, ref.Frame{H: ref.Header{Fin: true, Op: ref.OpCont}, Payload: []byte(rests[part])}.Encode())}
+			for ti, tail := range tails {
+				for _, ctl := range ctls {
+					n++
+					data := cat(ctl, first, tail)
+					if _, err := execFrames(data); err != nil {
+						hx.Failf(t, map[string]interface{}{"first_fragment": fmt.Sprintf("%d x 'a' + %x", size, part), "tail_hex": fmt.Sprintf("%x", tail), "ctl_hex": fmt.Sprintf("%x", ctl)},
+							"%v\nentry=%s", err, frameEntries[int(ctl[0])%len(frameEntries)])
+						return n
+					}
+					if ti == 0 && part == "\xe2" && ctl[0] == 2 && ctl[2] == 0 {
+						note("utf8-table", "Reader/edge", true, data)
+					}
+				}
+			}
+		}
+	}
+	return n
 }
